@@ -107,6 +107,10 @@ type c28env struct {
 	delayN   int
 	movedTag string // cluster only: this command is answered "MOVED <slot> <same address>" once
 	movedN   int
+	// refuse models the real connection below the seam: pipe.Do/DoMulti/DoCache/Receive return the
+	// context error before writing anything when the context is already done, so such a conn-level
+	// call is not a command "sent" to the server and is not counted as an attempt.
+	refuse func() error
 }
 
 func (e *c28env) reset(faultTag, script string, first func()) {
@@ -163,6 +167,11 @@ func c28expectShown(sym byte, k int) string { return c28show(c28reply(sym, k)) }
 
 func (e *c28env) user(argv []string) RedisResult {
 	tag := c28tag(argv)
+	if e.refuse != nil {
+		if err := e.refuse(); err != nil {
+			return NewErrorResult(err)
+		}
+	}
 	e.mu.Lock()
 	e.counts[tag]++
 	if tag != e.faultTag {
@@ -337,6 +346,7 @@ func c28run(r *vrun.Run, c *c28case, pool map[string]*c28sys) {
 			tags[i] = "GET " + keyOf(i)
 		}
 	}
+	e.refuse = func() error { return ctx.Err() }
 	e.reset(tags[c.Fault], c.Script, func() {
 		if c.Cancel {
 			cancel()
@@ -410,6 +420,11 @@ func c28run(r *vrun.Run, c *c28case, pool map[string]*c28sys) {
 		cmdRetryable = all // a non-cluster batch is re-sent as a whole, so every command of it must be safe to repeat
 	}
 	allowed := c28allowed(cluster, cmdRetryable, c)
+	if cluster && strings.Contains(c.Batch, "M") && c.Delay == "zero-then-neg" && allowed == 2 {
+		// A cluster batch round in which a sibling is redirected re-runs without advancing the attempt counter,
+		// so RetryDelay is consulted with attempts=1 twice and legitimately answers 0 twice: one more send is allowed.
+		allowed = 3
+	}
 	desc := func() string {
 		return fmt.Sprintf("attempts per command %v (faulted command %q: %d, allowed %d), RetryDelay calls %d, caller got %q; case %s", counts, tags[c.Fault], faultN, allowed, delayN, shown, c28json(c))
 	}
@@ -468,6 +483,12 @@ func c28run(r *vrun.Run, c *c28case, pool map[string]*c28sys) {
 	want := c28expectShown(sym, faultN)
 	if c.API == "Receive" && sym == 'O' {
 		want = "val:ok"
+	}
+	if c.Cancel && shown == "transport:context canceled" {
+		// the retry decided at the client layer was refused by the connection because the context is done:
+		// nothing was sent; the caller sees the context error
+		r.Outcome(c.Mode + " " + c.API + ": context error after a cancelled context (no command sent)")
+		return
 	}
 	if shown != want {
 		r.Violate(c.Mode+" "+c.API+": caller does not get the reply of the last attempt ("+c28name(sym)+")", desc()+"; expected "+want, c)
